@@ -15,6 +15,21 @@
 //!                   runtime's input ends; the lane drops its reader: the runtime's output fails, which
 //!                   the write task can only notice when it writes), or because the runtime stops after
 //!                   `empty_timeout` without consumers - which it must not do while one is attached.
+//! Frames that are not what a lane emits (`badframe-*` parts; new rules have the prefix `badframe/`):
+//!  * an `event` whose body is not a map message, map runtime with a strategy that *aborts*: once the
+//!    frame is completely written and everything is drained the runtime has terminated
+//!    (`badframe/runtime-not-stopped/..`), and - by the `unlinked` rule above, cause `bad-event-body` -
+//!    every served consumer that still listens was told `unlinked`, nothing after it; with a strategy
+//!    that *ignores*: the runtime does not stop (`badframe/stopped-although-ignored/..`), nobody is told
+//!    `unlinked`, and the rules `events` / `synced-state` hold for the well-formed events (the bad one
+//!    is not part of the lane's history); in both cases no consumer receives an event the lane did not
+//!    send - neither the bad body nor a substitute (`badframe/forwarded-to-consumers/..`);
+//!  * bytes that are not an envelope (undecodable frame; a prefix of a frame, then end of stream): the
+//!    statement does not say what happens; whether the runtime stops is counted, and whatever it does
+//!    the session grammar, the `events` rule up to that point and the `unlinked` rule (cause
+//!    `bad-envelope`) hold.
+//! Whatever the part: the runtime never closes the channel of a served consumer without `unlinked`
+//! while it keeps running (`session-dropped-without-unlinked/..`).
 //! Socket side:
 //!  * per consumer the commands that arrive are an in-order subsequence of what it sent (value: at
 //!    all; map: per key and relative to its clears), nothing arrives that was not sent;
@@ -34,7 +49,7 @@ use std::sync::Mutex;
 
 use common::{json, CaseOut, Json};
 
-use crate::peers::{show_val, Cmd, Ev, Key, LaneKind, Note, ReaderEnd, Req, SentKind, St};
+use crate::peers::{show_val, BadEnv, Cmd, Ev, Key, LaneKind, Note, ReaderEnd, Req, SentKind, St};
 use crate::run::{ConsObs, Obs};
 use crate::script::{key_owner, Config, EndKind, Step};
 
@@ -143,6 +158,8 @@ pub fn witness(cfg: &Config, script: &[Step], obs: &Obs) -> Json {
             SentKind::Synced => "synced".to_string(),
             SentKind::Unlinked => "unlinked".to_string(),
             SentKind::Event(ev) => format!("event {}", show_ev(ev)),
+            SentKind::BadEvent(b) => format!("EVENT WITH A BODY THAT IS NOT A {} EVENT: {b:?}", cfg.kind.name().to_uppercase()),
+            SentKind::BadEnvelope(how) => format!("BYTES THAT ARE NOT AN ENVELOPE ({}{})", how.name(), if let BadEnv::Truncated(pm) = how { format!(", {pm} per mille of a frame") } else { String::new() }),
         };
         lines.push((s.t0, format!("lane -> {k}{}", if s.t1.is_some() { "" } else { " (not completely written)" })));
     }
@@ -179,6 +196,7 @@ pub fn witness(cfg: &Config, script: &[Step], obs: &Obs) -> Json {
         "initial_state": cfg.init.show(),
         "end": cfg.end.name(),
         "empty_timeout_ms": cfg.timeout_ms,
+        "bad_frame_strategy": if cfg.kind == LaneKind::Map { cfg.strategy.name() } else { "none (value runtime)" },
         "channels": {"socket_out": cfg.cap_sock_out, "socket_in": cfg.cap_sock_in,
                      "consumers": cfg.consumers.iter().map(|c| json!([c.cap_note, c.cap_cmd])).collect::<Vec<_>>()},
         "script": script.iter().map(|s| format!("{s:?}")).collect::<Vec<_>>(),
@@ -293,7 +311,25 @@ pub fn check(cfg: &Config, script: &[Step], obs: &Obs, out: &mut dyn Sink) -> Su
     // At the quiescent point every brake is released and everything is drained: an input that has
     // ended has been seen by the read task, an output failure as above by the write task.
     let proven_closed = t_wclose.is_some() || output_failed;
-    let early_cause = if t_wclose.is_some() {
+    // ---- frames that are not what a lane emits (`badframe-*` parts) ----------------------------------
+    // (shown body, ticket before the first byte, ticket after the last)
+    let bad_bodies: Vec<(&String, u64, Option<u64>)> =
+        obs.lane.sent.iter().filter_map(|s| if let SentKind::BadEvent(b) = &s.kind { Some((b, s.t0, s.t1)) } else { None }).filter(|b| b.1 < obs.q).collect();
+    let bad_env: Option<(BadEnv, u64, Option<u64>)> =
+        obs.lane.sent.iter().find_map(|s| if let SentKind::BadEnvelope(how) = &s.kind { Some((*how, s.t0, s.t1)) } else { None }).filter(|b| b.1 < obs.q);
+    let lane_mute = bad_env.is_some();
+    let aborting = kind == LaneKind::Map && cfg.strategy.aborts();
+    // The frame after which the link is to be closed / may be closed.
+    let t_fatal_body = if aborting { bad_bodies.first().map(|b| b.1) } else { None };
+    let t_fatal = match (t_fatal_body, bad_env.map(|b| b.1)) {
+        (Some(a), Some(b)) => Some(a.min(b)),
+        (a, b) => a.or(b),
+    };
+    let early_cause = if t_fatal.is_some() && t_fatal == t_fatal_body {
+        "bad-event-body"
+    } else if t_fatal.is_some() {
+        "bad-envelope"
+    } else if t_wclose.is_some() {
         "input-closed"
     } else if t_drop.is_some() {
         "output-failed"
@@ -327,6 +363,54 @@ pub fn check(cfg: &Config, script: &[Step], obs: &Obs, out: &mut dyn Sink) -> Su
             ),
             Json::Null,
         );
+    }
+
+    if !bad_bodies.is_empty() {
+        let resp = cfg.strategy.response();
+        out.count(&format!("badframe/conversations-with-a-bad-event-body/{resp}"));
+        out.count(&format!("badframe/strategy/{}", cfg.strategy.name()));
+        out.add("badframe/bad-event-bodies-sent", bad_bodies.len() as u64);
+        let written = bad_bodies[0].2.map_or(false, |t| t < obs.q);
+        if aborting {
+            if !obs.runtime_alive_at_q {
+                out.count("badframe/abort/runtime-stopped");
+            }
+            if written && obs.runtime_alive_at_q && obs.runtime_panic.is_none() {
+                cx.violate(
+                    out,
+                    format!("badframe/runtime-not-stopped/{lane}/abort"),
+                    format!(
+                        "the lane sent an event whose body ({:?}) is not a {lane} message, the runtime's strategy ({}) answers `abort`, every brake is released and everything is drained, but the runtime task is still running",
+                        bad_bodies[0].0,
+                        cfg.strategy.name()
+                    ),
+                    json!({"strategy": cfg.strategy.name(), "body": bad_bodies[0].0}),
+                );
+            }
+        } else {
+            if obs.runtime_alive_at_q {
+                out.count("badframe/ignore/runtime-kept-running");
+            }
+            let other_cause = bad_env.is_some() || t_drop.is_some() || t_wclose.is_some() || obs.ms_at_q >= cfg.timeout_ms;
+            if !obs.runtime_alive_at_q && !other_cause && obs.runtime_panic.is_none() {
+                cx.violate(
+                    out,
+                    format!("badframe/stopped-although-ignored/{lane}"),
+                    format!(
+                        "the lane sent an event whose body ({:?}) is not a {lane} message, the runtime's strategy ({}) answers `ignore`, nothing else closed the link, and yet the runtime task has terminated",
+                        bad_bodies[0].0,
+                        cfg.strategy.name()
+                    ),
+                    json!({"strategy": cfg.strategy.name(), "body": bad_bodies[0].0}),
+                );
+            }
+        }
+    }
+    if let Some((how, _, t1)) = bad_env {
+        out.count(&format!("badframe/conversations-with-a-bad-envelope/{}", how.name()));
+        if t1.map_or(false, |t| t < obs.q) {
+            out.count(&format!("badframe/bad-envelope/runtime-{}", if obs.runtime_alive_at_q { "kept-running" } else { "stopped" }));
+        }
     }
 
     if let Some(msg) = &obs.runtime_panic {
@@ -391,7 +475,24 @@ pub fn check(cfg: &Config, script: &[Step], obs: &Obs, out: &mut dyn Sink) -> Su
         }
         for (_, n) in &co.frames {
             if let Note::BadEvent(b) = n {
-                cx.violate(out, format!("bad-event-body/{lane}"), format!("consumer {c} received an event whose body is not a {lane} lane event: {b}"), json!({"consumer": c}));
+                if bad_bodies.is_empty() {
+                    cx.violate(out, format!("bad-event-body/{lane}"), format!("consumer {c} received an event whose body is not a {lane} lane event: {b}"), json!({"consumer": c}));
+                } else {
+                    // The lane did send an event that is not a map message. Whatever the strategy, the
+                    // consumer must not receive an event the lane did not send: neither the bad body
+                    // itself (it is not a map message) nor a substitute.
+                    out.count("badframe/consumers-that-received-an-event-the-lane-did-not-send");
+                    let class = if b == "b\"\"" { "empty-body" } else { "other-body" };
+                    cx.violate(
+                        out,
+                        format!("badframe/forwarded-to-consumers/{lane}/{}/{class}", cfg.strategy.response()),
+                        format!(
+                            "the lane sent an event whose body is not a {lane} message (strategy {}); consumer {c} received an event with the body {b}, which the lane never sent and which is not a {lane} message either",
+                            cfg.strategy.name()
+                        ),
+                        json!({"consumer": c, "strategy": cfg.strategy.name(), "received_body": b, "bad_bodies_sent": bad_bodies.iter().map(|x| x.0.clone()).collect::<Vec<_>>()}),
+                    );
+                }
                 break;
             }
         }
@@ -408,7 +509,7 @@ pub fn check(cfg: &Config, script: &[Step], obs: &Obs, out: &mut dyn Sink) -> Su
         let here_at_q = co.alive_at_q && settled;
 
         // ---- linked / synced iff requested ---------------------------------------------------------
-        if here_at_q && linked_done && i_linked.is_none() {
+        if here_at_q && linked_done && i_linked.is_none() && !lane_mute {
             cx.violate(
                 out,
                 format!("linked-missing/{lane}/{sync_s}"),
@@ -428,7 +529,8 @@ pub fn check(cfg: &Config, script: &[Step], obs: &Obs, out: &mut dyn Sink) -> Su
             );
         }
         // (a lane that dropped its reader may never have seen the sync request)
-        if cc.sync && here_at_q && i_linked.is_some() && i_synced.is_none() && t_drop.is_none() {
+        // (nor does a lane answer that has emitted bytes that are not an envelope)
+        if cc.sync && here_at_q && i_linked.is_some() && i_synced.is_none() && t_drop.is_none() && !lane_mute {
             // Two different ways to get here are told apart by what the lane saw: a sync request
             // after the attachment whose answer went out (the answer was consumed before the read
             // task registered the consumer), or no sync request at all.
@@ -521,8 +623,10 @@ pub fn check(cfg: &Config, script: &[Step], obs: &Obs, out: &mut dyn Sink) -> Su
         }
 
         // ---- events: contiguous, none lost once owed --------------------------------------------
+        // (where the lane itself sent a bad body, a bad event a consumer received is reported above and
+        // the rule is applied to the well-formed ones: they must still be a complete, ordered run)
         let has_bad = co.frames.iter().any(|f| matches!(f.1, Note::BadEvent(_)));
-        if !has_bad {
+        if !has_bad || !bad_bodies.is_empty() {
             let c_evs: Vec<&Ev> = co.frames.iter().filter_map(|f| if let Note::Event(ev) = &f.1 { Some(ev) } else { None }).collect();
             sum.events_delivered += c_evs.len() as u64;
             let t_owed = if cc.sync { i_synced.map(|i| co.frames[i].0) } else { i_linked.map(|i| co.frames[i].0) };
@@ -601,7 +705,9 @@ pub fn check(cfg: &Config, script: &[Step], obs: &Obs, out: &mut dyn Sink) -> Su
                 let t_unl = co.frames[i].0;
                 let fault_before = t_drop.map_or(false, |t| t < t_unl) || t_wclose.map_or(false, |t| t < t_unl);
                 let ms_unl = obs.quiet.iter().find(|x| x.0 > t_unl).map_or(obs.ms_at_q, |x| x.1);
-                if fault_before {
+                if t_fatal.map_or(false, |t| t < t_unl) {
+                    out.count(&format!("badframe/sessions-unlinked-after-the-bad-frame/{early_cause}"));
+                } else if fault_before {
                     out.count("fault/sessions-unlinked-after-a-lane-fault");
                 } else if ms_unl >= cfg.timeout_ms {
                     let t_first = co.frames[0].0;
@@ -666,6 +772,21 @@ pub fn check(cfg: &Config, script: &[Step], obs: &Obs, out: &mut dyn Sink) -> Su
                 }
             }
         }
+        // The runtime closed the consumer's channel while it kept running, and the last thing the
+        // consumer was told is not `unlinked`: its session was dropped (every later event is lost).
+        // (A runtime that has terminated is judged by the rule above.)
+        if let Some(ReaderEnd::Closed(t)) = co.end {
+            if t < obs.q && obs.runtime_alive_at_q && !co.frames.is_empty() && co.frames.last().map_or(false, |f| f.1 != Note::Unlinked) {
+                cx.violate(
+                    out,
+                    format!("session-dropped-without-unlinked/{lane}"),
+                    format!("consumer {c} was served ({} frames) and listening; the runtime closed its channel without `unlinked` and kept running", co.frames.len()),
+                    json!({"consumer": c}),
+                );
+            }
+        }
+        // (a lane that has emitted bytes that are not an envelope cannot say `unlinked`)
+        let closing = closing && !(lane_mute && cfg.end == EndKind::LaneUnlinked);
         if closing && co.alive_at_q && obs.runtime_alive_at_q {
             let last_is_unlinked = co.frames.last().map_or(false, |f| f.1 == Note::Unlinked);
             let closed = matches!(co.end, Some(ReaderEnd::Closed(_)));
@@ -689,6 +810,52 @@ pub fn check(cfg: &Config, script: &[Step], obs: &Obs, out: &mut dyn Sink) -> Su
         }
         if let Some((_, "mid-frame")) = co.writer_end {
             out.count("consumer-writer-dropped-mid-frame");
+        }
+    }
+
+    // ---- a consumer found dead while an event is fed (`feed-failure-*` parts) -----------------------------
+    // What can be seen from outside: a served consumer dropped its reader, others kept listening, and
+    // the lane then wrote more than 8 KiB of events and one more without a quiet point in between (a
+    // framed writer that holds 8 KiB flushes before it takes the next frame: for the consumer that has
+    // gone that fails inside `feed`, unless an earlier flush had found it out).
+    if cfg.bursts {
+        let mut reached = 0u64;
+        for (c, co) in obs.cons.iter().enumerate() {
+            let Some(ReaderEnd::Dropped(t_left)) = co.end else { continue };
+            if !co.attach_accepted || co.frames.is_empty() || t_left >= obs.q {
+                continue;
+            }
+            let others = obs.cons.iter().enumerate().any(|(d, o)| d != c && o.attach_accepted && !o.frames.is_empty() && match o.end {
+                Some(ReaderEnd::Dropped(t)) | Some(ReaderEnd::Closed(t)) | Some(ReaderEnd::DecodeError(t, _)) => t > t_left,
+                None => true,
+            });
+            if !others {
+                continue;
+            }
+            // bytes of events between consecutive quiet points after the departure
+            // (an envelope is some 30 bytes longer than the notification made of it: a margin of 256)
+            let mut acc = 0usize;
+            let mut hit = false;
+            let mut last_quiet = obs.quiet.iter().filter(|x| x.0 <= t_left).count();
+            for sent in obs.lane.sent.iter().filter(|x| x.t0 > t_left && x.t1.is_some()) {
+                let qn = obs.quiet.iter().filter(|x| x.0 <= sent.t0).count();
+                if qn != last_quiet {
+                    last_quiet = qn;
+                    acc = 0;
+                }
+                if let SentKind::Event(_) = sent.kind {
+                    // this event is fed to a writer that already holds `acc` bytes
+                    hit |= acc >= 8192 + 256;
+                    acc += sent.bytes;
+                }
+            }
+            if hit {
+                reached += 1;
+            }
+        }
+        if reached > 0 {
+            out.count("feed-failure/conversations-with-a-reader-gone-before-a-burst-of-more-than-8KiB");
+            out.add("feed-failure/readers-gone-before-a-burst-of-more-than-8KiB", reached);
         }
     }
 
@@ -732,7 +899,13 @@ fn check_inactivity(cx: &Ctx<'_>, out: &mut dyn Sink) {
     }
     let lane = cfg.kind.name();
     let t = cfg.timeout_ms;
-    let lane_fault = obs.lane.reader_dropped.is_some() || obs.lane.writer_closed.is_some();
+    // (so is a frame after which the runtime is to close the link: not a stop for inactivity)
+    let fatal_frame = obs.lane.sent.iter().any(|s| match &s.kind {
+        SentKind::BadEnvelope(_) => true,
+        SentKind::BadEvent(_) => cfg.kind == LaneKind::Map && cfg.strategy.aborts(),
+        _ => false,
+    });
+    let lane_fault = obs.lane.reader_dropped.is_some() || obs.lane.writer_closed.is_some() || fatal_frame;
     let closing_end = matches!(cfg.end, EndKind::LaneUnlinked | EndKind::SocketClosed | EndKind::StopTrigger);
 
     // ---- how consumers came and went ------------------------------------------------------------------
